@@ -1,5 +1,6 @@
 import TracklibVerif.Lemmas.DTWReal
 import TracklibVerif.Lemmas.FDTW
+import TracklibVerif.Lemmas.FDTWStruct
 /-! Histories and the fast variant: `_fdtw` on a `track1` that carries the feature rows of an earlier matching. `_fillAF_dtw` resets
 every `pair` list but overwrites `diff` / `ex` / `ey` only at the observations the walk through the antecedent map `A` visits, so the
 statement needs what makes that walk a coupling: the hypotheses of `fdtw_spec` (`FastHyp`) on the accumulation that `_p2weight`
@@ -18,6 +19,16 @@ def FastHyp (big : α) (w : α → α → α) (dist : Pt α → Pt α → α) (t
   (∀ i j i' j', i < t2.length → j < t1.length → i' < t2.length → j' < t1.length →
       w (T w 0 (Dmat dist t1 t2) i j) (Dmat dist t1 t2 i' j') < big)
 
+/-- `big` is above the accumulated cost of every partial coupling of the two tracks (every monotone unit-step path from the first pair
+to some pair): all that `fdtw_struct` needs, whatever the accumulation and the point distance -/
+def FastBig (big : α) (w : α → α → α) (dist : Pt α → Pt α → α) (t1 t2 : List (Pt α)) : Prop :=
+  ∀ i j c, i < t2.length → j < t1.length → Coupling w 0 (Dmat dist t1 t2) i j c → c < big
+
+/-- what makes the walk through the antecedent map of `_fdtw` a coupling: the hypotheses of `fdtw_spec` (then the score is the optimum
+too) **or** only `big` above every partial coupling cost (`fdtw_struct`: any accumulation) -/
+def FastOK (big : α) (w : α → α → α) (dist : Pt α → Pt α → α) (t1 t2 : List (Pt α)) : Prop :=
+  FastHyp big w dist t1 t2 ∨ FastBig big w dist t1 t2
+
 end fastHyp
 
 section fastW
@@ -27,15 +38,18 @@ omit [Div α] [Neg α] [OfScientific α] in
 /-- `_fdtw` on a `track1` that carries earlier feature rows returns what it returns on a `track1` without them, and that is a
 track with one feature row per observation -/
 theorem fdtwOn_history (dist : Pt α → Pt α → α) (big : α) (w : α → α → α) (rows0 : List (Row α)) (t1 t2 : List (Pt α))
-    (hl : rows0.length = t1.length) (h1 : 0 < t1.length) (h2 : 0 < t2.length) (H : FastHyp big w dist t1 t2) :
+    (hl : rows0.length = t1.length) (h1 : 0 < t1.length) (h2 : 0 < t2.length) (H : FastOK big w dist t1 t2) :
     ∃ o, fdtw dist big w t1 t2 = some o ∧ fdtwOn dist big w rows0 t1 t2 = some o ∧ o.rows.length = t1.length := by
-  obtain ⟨S, rows, he, hbp, hhd, _, hlen, _⟩ := fdtw_spec dist big w t1 t2 h1 h2 H.1 H.2.1 H.2.2
-  exact ⟨_, he, fdtwOn_of_fdtw dist big w rows0 t1 t2 hl h1 h2 _ he hbp hhd, hlen⟩
+  rcases H with H | H
+  · obtain ⟨S, rows, he, hbp, hhd, _, hlen, _⟩ := fdtw_spec dist big w t1 t2 h1 h2 H.1 H.2.1 H.2.2
+    exact ⟨_, he, fdtwOn_of_fdtw dist big w rows0 t1 t2 hl h1 h2 _ he hbp hhd, hlen⟩
+  · obtain ⟨S, rows, he, hbp, hhd, hlen, _⟩ := fdtw_struct dist big w t1 t2 h1 h2 H
+    exact ⟨_, he, fdtwOn_of_fdtw dist big w rows0 t1 t2 hl h1 h2 _ he hbp hhd, hlen⟩
 
 /-- the fast variant, once `_p2weight(p)` has returned `w`, on a `track1` that carries earlier feature rows -/
 theorem warpW_fast_history (G : Geom α) (big : α) (w : α → α → α) (dim : DimArg α) (t1 t2 : List (Pt α)) (rows0 : List (Row α))
     (hl : rows0.length = t1.length) (h1 : 0 < t1.length) (h2 : 0 < t2.length)
-    (H : ∀ dist, distanceOf G dim = .ok dist → FastHyp big w dist t1 t2) :
+    (H : ∀ dist, distanceOf G dim = .ok dist → FastOK big w dist t1 t2) :
     warpW G big true w dim { pts := t1, rows := rows0 } t2 = warpW G big true w dim (TrackObj.fresh t1) t2 := by
   unfold warpW
   simp only [TrackObj.fresh, if_true]
@@ -54,7 +68,7 @@ theorem warpW_fast_history (G : Geom α) (big : α) (w : α → α → α) (dim 
 /-- the track the fast variant returns has one feature row per observation of track1 -/
 theorem warpW_fast_rows_length (G : Geom α) (big : α) (w : α → α → α) (dim : DimArg α) (t1 t2 : List (Pt α))
     (h1 : 0 < t1.length) (h2 : 0 < t2.length)
-    (H : ∀ dist, distanceOf G dim = .ok dist → FastHyp big w dist t1 t2) (o : Out α)
+    (H : ∀ dist, distanceOf G dim = .ok dist → FastOK big w dist t1 t2) (o : Out α)
     (h : warpW G big true w dim (TrackObj.fresh t1) t2 = .ok o) : o.rows.length = t1.length := by
   unfold warpW at h
   have hne : t1.isEmpty = false := by cases t1 with | nil => simp at h1 | cons _ _ => rfl
@@ -76,10 +90,11 @@ section fastCall
 variable {α : Type} [Add α] [Sub α] [Mul α] [Div α] [Neg α] [LinearOrder α] [OfNat α 0] [OfNat α 1] [OfScientific α]
 
 /-- **the call is one the fast variant is good for**: whatever accumulation `_p2weight(_exponent(p))` returns and whatever point
-distance `_distance(·, ·, dim)` is on this class of positions, the hypotheses of `fdtw_spec` hold on the two tracks (nothing is asked
+distance `_distance(·, ·, dim)` is on this class of positions, the hypotheses of `fdtw_spec` — or, failing them, only `big` above every
+partial coupling cost (`FastOK`) — hold on the two tracks (nothing is asked
 of a call in which either fails: it raises before `_fdtw` runs) -/
 def FastCallOK (pow : α → α → α) (G : Geom α) (big : α) (p : PArgX α) (dim : DimArg α) (t1 t2 : List (Pt α)) : Prop :=
-  ∀ w dist, p2weightX pow p.exponent = .ok w → distanceOf G dim = .ok dist → FastHyp big w dist t1 t2
+  ∀ w dist, p2weightX pow p.exponent = .ok w → distanceOf G dim = .ok dist → FastOK big w dist t1 t2
 
 /-- `matchCallX` in **every** mode on a track1 that carries earlier feature rows: same result as on a track1 without them — for
 the mode FDTW (3) when the call is one the fast variant is good for -/
